@@ -174,10 +174,16 @@ func (s *redisServer) execute(w *bufio.Writer, args [][]byte) error {
 	s.metrics.IncCommand(cmd)
 	switch cmd {
 	case "PING":
-		if len(args) > 1 && len(args[1]) > 0 {
+		switch len(args) {
+		case 1:
+			return writeSimpleString(w, "PONG")
+		case 2:
+			if args[1] == nil {
+				return writeBulk(w, []byte{})
+			}
 			return writeBulk(w, args[1])
 		}
-		return writeSimpleString(w, "PONG")
+		return s.respondError(w, "wrong number of arguments for 'PING'")
 	case "ECHO":
 		if len(args) != 2 {
 			return s.respondError(w, "wrong number of arguments for 'ECHO'")
